@@ -244,7 +244,7 @@ def tie(ctx):
             return 'raise ' + type(e).__name__
 
     # ---- lighthouse_bs_vector.py over the field of view
-    pts = fov_grid(ctx, *ctx.scale((81, 57, 1000), (241, 167, 10000)))
+    pts = fov_grid(ctx, *ctx.scale((161, 111, 3000), (481, 331, 30000)))
     for (h, v) in pts:
         nt = abs(h) > 1e-12 and abs(v) > 1e-12
         b = BV(h, v)
@@ -267,7 +267,7 @@ def tie(ctx):
               run(lambda: list(BV.from_cart(p).lh_v1_angle_pair)), F64, nt, 'bsv')
 
     # ---- scipy hypothesis + Pose
-    rvs = rotvecs(ctx, ctx.scale(200, 4000))
+    rvs = rotvecs(ctx, ctx.scale(400, 6000))
     mats = []
     for kind, r in rvs:
         nt = kind != 'identity'
@@ -639,6 +639,32 @@ def _oracle_defaults(fails):
     return n
 
 
+def _oracle_vector_lists(ctx, n, fails):
+    """LighthouseBsVectors.angle_list / projection_pair_list: same order (horizontal, vertical) per sensor as the
+    solver's raveled angle pairs"""
+    import numpy as np
+    from cflib.localization.lighthouse_bs_vector import LighthouseBsVector as BV, LighthouseBsVectors
+    cnt = 0
+    for _ in range(n):
+        hv = [(ctx.rng.uniform(-H_MAX, H_MAX) * D2R, ctx.rng.uniform(-V_MAX, V_MAX) * D2R) for _ in range(4)]
+        case = {'fn': 'vector_lists', 'hv': hv}
+        try:
+            vs = LighthouseBsVectors([BV(h, v) for h, v in hv])
+            al = [float(a) for a in vs.angle_list()]
+            want = [a for h, v in hv for a in (h, v)]
+            pl = vs.projection_pair_list()
+            wantp = [[math.tan(h), math.tan(v)] for h, v in hv]
+            ok = al == want and pl.shape == (4, 2) and all(
+                _cmp_list(list(pl[i]), wantp[i], *F32) is None for i in range(4))
+            if not ok:
+                _fail(fails, 'vector_lists_order', case, [want, wantp], [al, pl.tolist()],
+                      'angle_list/projection_pair_list must list (horizontal, vertical) per sensor in order')
+            cnt += 2
+        except Exception as e:  # noqa
+            _fail(fails, 'bsv_raises', case, 'no exception', repr(e), 'LighthouseBsVectors raised')
+    return cnt
+
+
 def _corpus(ctx):
     import glob
     import json
@@ -662,18 +688,19 @@ def oracle(ctx, deep=False):
     n += _oracle_defaults(fails)
     big = deep or ctx.thorough
     if big:
-        pts = fov_grid(ctx, 481, 331, 50000)
+        pts = fov_grid(ctx, 961, 661, 100000)
     else:
-        pts = fov_grid(ctx, 161, 111, 3000)
+        pts = fov_grid(ctx, 321, 221, 10000)
     for (h, v) in pts:
         n += _oracle_bsv(h, v, fails)
-    rvs = rotvecs(ctx, 8000 if big else 600)
+    rvs = rotvecs(ctx, 20000 if big else 1500)
     for i, (kind, r) in enumerate(rvs):
         k2, r2 = rvs[ctx.rng.randrange(len(rvs))]
         k3, r3 = rvs[ctx.rng.randrange(len(rvs))]
         n += _oracle_pose(kind + '+' + k2 + '+' + k3, list(r), _tvec(ctx), list(r2), _tvec(ctx), list(r3), _tvec(ctx),
                           _tvec(ctx, 5.0), fails)
-    n += _oracle_paths(_path_rows(ctx, 20000 if big else 1500), fails)
+    n += _oracle_paths(_path_rows(ctx, 60000 if big else 4000), fails)
+    n += _oracle_vector_lists(ctx, 2000 if big else 200, fails)
     n += _oracle_ippe(ctx, 3000 if big else 300, fails)
     n += _oracle_ippe_solve(ctx, 500 if big else 40, fails)
     return {'evaluations': n, 'failures': fails,
@@ -703,6 +730,12 @@ def _replay_case(c):
     elif fn == 'default_pose':
         _oracle_defaults(fails)
         fails = [f for f in fails if f['case'].get('ctor') == c.get('ctor')]
+    elif fn == 'vector_lists':
+        import random
+
+        class _V:
+            rng = random.Random(0)
+        _oracle_vector_lists(_V, 50, fails)
     elif fn in ('ippe', 'ippe_solve'):
         import random
 
